@@ -113,8 +113,12 @@ class RequestHandler:
                         break  # no more messages to process
                 except DecodeError as err:
                     # we have to decode 'origin' here
-                    # use latin-1, as utf-8 or ascii may lead to encoding errors
-                    msg = err.raw_msg.decode('latin-1').split(' ', 3) + [
+                    # fall back to latin-1, as utf-8 or ascii may lead to encoding errors
+                    try:
+                        origin = err.raw_msg.decode('utf-8')
+                    except UnicodeDecodeError:
+                        origin = err.raw_msg.decode('latin-1')
+                    msg = origin.split(' ', 3) + [
                         None
                     ]  # make sure len(msg) > 1
                     result = (
